@@ -14,6 +14,9 @@ from vf.gen import values as gv
 from vf.oracle import rt as RT
 
 
+UNTYPABLE = ("untypable",)
+
+
 class CountingLogger:
     def __init__(self):
         self.traces = []
@@ -64,7 +67,10 @@ def run_traced(mod, path, prog, k, sample_rate=None, with_flight=True, rng_seed=
     get_type = mt.get_type
 
     def typer(v):
-        return RT.to_rt(get_type(v, k))
+        try:
+            return RT.to_rt(get_type(v, k))
+        except RecursionError:
+            return UNTYPABLE  # e.g. a list that contains itself
 
     logger = make_logger()
     fl = Flight(path, typer) if with_flight else None
@@ -138,17 +144,19 @@ def compare(res, g, t, prog, k, prefix=""):
         what = "*args/**kwargs" if (got - named) <= extras else "non-parameters"
         out.append(("argument-extra", f"{g['qual']}: logged args {sorted(got)} include {what} (named parameters: {sorted(named)})"))
     for n in sorted(named & got & set(g["args"])):
-        if RT.to_rt(t.arg_types[n]) != g["args"][n]:
+        if g["args"][n] != UNTYPABLE and RT.to_rt(t.arg_types[n]) != g["args"][n]:
             out.append(("argument-type-differs", f"{g['qual']}({n}): logged {RT.show(RT.to_rt(t.arg_types[n]))}, value bound at call start had {RT.show(g['args'][n])}"))
             break
     if g["exc"] is not None:
         if t.return_type is not None:
             out.append(("return-type-on-exception-exit", f"{g['qual']} ended with {g['exc']} but return_type={t.return_type!r}"))
     else:
-        if t.return_type is None:
+        if t.return_type is None and g["ret"] == UNTYPABLE:
+            res.count("untypable_returns_traced_without_type")
+        elif t.return_type is None:
             kind = "const-return" if g["const_return"] else "return"
             out.append((f"return-type-absent-after-{kind}:{flavor(code)}", f"{g['qual']} returned {RT.show(g['ret'])} but return_type is absent"))
-        elif RT.to_rt(t.return_type) != g["ret"]:
+        elif g["ret"] != UNTYPABLE and RT.to_rt(t.return_type) != g["ret"]:
             out.append(("return-type-differs", f"{g['qual']} returned {RT.show(g['ret'])}, logged {RT.show(RT.to_rt(t.return_type))}"))
     if not g["yields"]:
         if t.yield_type is not None:
@@ -181,6 +189,8 @@ def align(res, G, L, residue, live, prog, k):
                     "there and it yielded None again from the same yield instruction; its trace may be logged early and incomplete"))
     for g in G:
         res.count("completions")
+        if g["qual"].endswith("<locals>.depth"):
+            res.count("self_recursive_local_function_calls")
         res.seen("exit_kinds", ("exception" if g["exc"] else ("const-return" if g["const_return"] else "return")) + ":" + flavor(g["code"]))
         code = g["code"]
         res.seen("param_kinds", "po%d,n%d,ko%d,va%d,vk%d" % (
@@ -200,6 +210,8 @@ def align(res, G, L, residue, live, prog, k):
         else:
             if g.get("how") == "unwind-at-suspended-yield":
                 bad.append(("generator-ended-by-exception-at-suspended-yield", f"{g['qual']}: no trace logged (exception thrown at a suspended yield)"))
+            elif g["ret"] == UNTYPABLE or UNTYPABLE in g["args"].values() or UNTYPABLE in g["yields"]:
+                res.count("untypable_completions_without_trace")
             elif label == "must":
                 bad.append((f"missing-trace:{flavor(g['code'])}", f"{g['qual']} completed ({'exception' if g['exc'] else 'return'}) but no trace was logged in order"))
             else:
@@ -363,6 +375,8 @@ def run(ck):
     ck.need("control_runs", 20)
     ck.need("twin_cases", 1)
     ck.need("prestart_programs", 50)
+    ck.need("untypable_completions_without_trace", 50, "no call returned a value whose type cannot be collected")
+    ck.need("self_recursive_local_function_calls", 50)
     for ek in ("exception:plain", "const-return:plain", "return:plain", "return:generator", "const-return:generator", "exception:generator",
                "return:coroutine", "const-return:coroutine", "exception:coroutine"):
         ck.counters["exit:" + ek] = 1 if ek in ck.sets.get("exit_kinds", ()) else 0
